@@ -162,5 +162,9 @@ structure Ext where
   customCol : String → Val → Outcome (Option Err)
   customInto : String → Val → Except Exc Val
   customExp : String → Bool → String
+  /-- `make_converter(type(v), self.handlers).into_data(v)` when a handler the container converter was built
+  with answers for `type(v)`: the serialiser of an element of UNDECLARED type inside a sequence or mapping
+  (`none`: no handler answers, the built-in converter of the runtime type is used) -/
+  elemHook : Val → Option (Except Exc Val) := fun _ => none
 
 end PaneModel
